@@ -161,6 +161,48 @@ def count_needed(case, n):
     return int(t), None                                    # int() truncates towards zero
 
 
+def _dist_to_integer(x):
+    return min(x - math.floor(x), math.ceil(x) - x)
+
+
+def boundary_shares(sizes=range(1, 8)):
+    """Fractional count thresholds (THRESHOLD's threshold / EmergencyQuorum's emergency_threshold) together with the
+    colony sizes they are to be tried on, so that EVERY point where the head-count ceil(share * n) changes is
+    approached from both sides for every n: a colony of n flips at share = k/n, k = 1..n-1.
+      * every two-decimal share 0.01 .. 0.99 on every colony size (how such a share is normally written);
+      * every three-decimal share whose product with some n lies within 0.01 of an integer, on those n
+        (0.142/0.143 x 7, 0.333/0.334 x 3 and 6, ...);
+      * k/n -/+ 1e-6 for every n, k, on every size where the product is within 1e-4 of an integer.
+    -> {share (float): sorted list of colony sizes}"""
+    out = {}
+    for i in range(1, 100):
+        out[i / 100] = set(sizes)
+    for i in range(1, 1000):
+        sh = i / 1000
+        if sh not in out:
+            ns = {n for n in sizes if _dist_to_integer(Fraction(sh) * n) <= Fraction(1, 100)}
+            if ns:
+                out[sh] = ns
+    for n in sizes:
+        for k in range(1, n):
+            for d in (-1e-6, 1e-6):
+                sh = k / n + d
+                ns = {m for m in sizes if _dist_to_integer(Fraction(sh) * m) <= Fraction(1, 10 ** 4)}
+                out.setdefault(sh, set()).update(ns)
+    return {sh: sorted(ns) for sh, ns in out.items() if 0 < sh < 1}
+
+
+def share_case(share, n, np_, em, rest="BLOCK", min_voters=1, w=1.0):
+    """One vote of an n-member colony under the fractional count threshold `share`: np_ permits, the others `rest`
+    (the last of several non-permitting members abstains when rest == "MIXED")."""
+    others = n - np_
+    acts = ["PERMIT"] * np_ + ["BLOCK" if rest in ("BLOCK", "MIXED") else rest] * others
+    if rest == "MIXED" and others >= 2:
+        acts[-1] = "ABSTAIN"
+    return {"strategy": "threshold", "thr": share, "min_voters": 1 if em else min_voters, "emergency": em,
+            "voters": [voter(a, w) for a in acts], "exact": _dyadic(share)}
+
+
 def supports(case, bl):
     """(permit support, block support) of the ratio strategies, exact."""
     s = case["strategy"]
@@ -312,7 +354,13 @@ class C06(Check):
             "votes decided by the learned reliabilities (WEIGHTED, MAJORITY, EmergencyQuorum), ~1% of the random histories start with "
             "998..1007 repetitions of their first vote (observations of consecutive identical calls are run-length encoded on both sides); "
             "exhaustive resize histories: vote, grow/shrink the colony (1..4 -> 1..5 quick, 1..5 -> 1..7 thorough), vote again with every "
-            "permit count, for THRESHOLD (default, 0.25, 0.5, 2), EmergencyQuorum (0.3, 0.5), MAJORITY, UNANIMOUS. Ballots: "
+            "permit count, for THRESHOLD (default, 0.25, 0.5, 2), EmergencyQuorum (0.3, 0.5), MAJORITY, UNANIMOUS. "
+            "FRACTIONAL COUNT THRESHOLDS (THRESHOLD's threshold in (0,1), EmergencyQuorum's emergency_threshold) at every point where the "
+            "head-count ceil(share * n) changes: exhaustive: every two-decimal share 0.01..0.99 x every colony size 1..7, every three-decimal "
+            "share whose product with a colony size is within 0.01 of an integer and k/n -/+ 1e-6 (k < n <= 7) on those sizes, for THRESHOLD "
+            "and EmergencyQuorum, with one permit fewer than the share of the colony asks for and with exactly as many, the other members "
+            "blocking (thorough: also one / all of them abstaining); random: shares k/m +- {1e-6 .. 0.01} (raw, rounded to 2 or 3 decimals), "
+            "random two/three-decimal shares, permits = quota-2..quota+1, bystanders that block, abstain, defer or fail, min_voters 0..quota. Ballots: "
             "electorates of 0..7 stub voters; per voter action in {PERMIT,EXECUTE,BLOCK,DEFER,ABSTAIN,FAILURE,UNKNOWN}, "
             "raising agent or unusable confidence; weight x reliability x confidence from the dyadic grid {0,1/4,1/2,3/4,1,2} "
             "(confidence also absent) or two-decimal floats incl. 0.3; all seven strategies and EmergencyQuorum; thresholds: "
@@ -325,7 +373,9 @@ class C06(Check):
     LEVEL_TEXT = ("Coq theorems over all ballots (any number of voters), rational weights/confidences >= 0 and thresholds in the stated "
                   "ranges about a hand-written Gallina model of _aggregate_votes, the seven aggregators, vote collection and "
                   "EmergencyQuorum: no permit vote => never PERMIT; unopposed/unanimous permit with positive effective support => PERMIT; "
-                  "any block defeats UNANIMOUS; reached <=> the per-strategy criterion (stated independently, multiplicatively); "
+                  "any block defeats UNANIMOUS; reached <=> the per-strategy criterion (stated independently, multiplicatively); a fractional count "
+                  "threshold (THRESHOLD, EmergencyQuorum) is a share of the whole colony for EVERY rational share and colony size: reached <=> "
+                  "somebody permits and permits/colony >= share, the head-count used being the least count >= 1 that covers share*n; "
                   "block->permit and raising a permit voter's weight/confidence never lose PERMIT; counts exact; failed voters are "
                   "zero-confidence abstentions and passive votes never influence the verdict; and over all HISTORIES of one instance (votes interleaved "
                   "with every public mutator, reliability learning included, callbacks that return or raise, and run_vote calls abandoned by a "
@@ -378,11 +428,57 @@ class C06(Check):
         if strat == "threshold":
             pool = [None, None, 0, 0.25, 0.5, 0.75, 1, 2, 3, max(1, n), n + 1, 2.5, 1.0]
             if not exact:
-                pool += [0.3, 0.3, round(rng.uniform(0.01, 0.99), 2), 0.34, 0.1]
+                pool += [0.3, 0.3, round(rng.uniform(0.01, 0.99), 2), 0.34, 0.1,
+                         round(rng.uniform(0.01, 0.99), 2), round(rng.uniform(0.001, 0.999), 3), self._near_share(rng, n)]
             return rng.choice(pool)
         if exact:
             return rng.choice([None, None] + GRID_THR)
         return rng.choice([None, 0.3, 0.666, 0.9, round(rng.uniform(0.0, 0.99), 2), round(rng.uniform(0.0, 0.99), 2)])
+
+    @staticmethod
+    def _near_share(rng, n):
+        """A share next to a point k/m where the head-count of a colony of m (the current size n, or another one up to
+        7) changes."""
+        m = rng.choice([max(2, n), max(2, n), rng.randint(2, 7)])
+        k = rng.randint(1, m - 1)
+        sh = k / m + rng.choice([-1, 1]) * rng.choice([1e-6, 1e-4, 1e-3, 0.004, 0.01])
+        sh = rng.choice([sh, round(sh, 2), round(sh, 3)])
+        return sh if 0 < sh < 1 else 0.29
+
+    def _share_case(self, rng):
+        """A vote under a fractional count threshold next to a head-count boundary, with about as many permits as the
+        share of the colony asks for; bystanders that abstain / defer / fail stay in the denominator."""
+        n = rng.choice([1, 2, 3, 3, 4, 5, 5, 6, 6, 7, 7, 7])
+        share = rng.choice([self._near_share(rng, n), self._near_share(rng, n), round(rng.uniform(0.01, 0.99), 2),
+                            round(rng.uniform(0.001, 0.999), 3)])
+        need = max(1, math.ceil(Fraction(share) * n))
+        np_ = min(n, max(0, need + rng.choice([-1, -1, 0, 0, 0, 1, -2])))
+        em = rng.random() < 0.4
+        vs = [self._rand_voter(rng, False, ["PERMIT", "PERMIT", "EXECUTE"]) for _ in range(np_)] + \
+             [self._rand_voter(rng, False, ["BLOCK", "BLOCK", "BLOCK", "ABSTAIN", "DEFER", "RAISE", "BADCONF", "FAILURE"])
+              for _ in range(n - np_)]
+        rng.shuffle(vs)
+        case = {"strategy": "threshold", "thr": share, "min_voters": 1 if em else rng.choice([1, 1, 1, 0, 2, need]),
+                "emergency": em, "voters": vs, "exact": False}
+        self._rand_reporting(rng, case, 0.1)
+        return case
+
+    def _share_boundaries(self):
+        """Every boundary share x colony size of boundary_shares(), THRESHOLD and EmergencyQuorum, with one permit
+        fewer than the share of the colony asks for (BLOCK) and with exactly that many (PERMIT); the other members
+        block (quick), or also: one of them abstains / all of them abstain (thorough)."""
+        out = []
+        rests = ("BLOCK",) if self.tier == "quick" else ("BLOCK", "MIXED", "ABSTAIN")
+        def written(sh):                                      # as written: two decimals, three decimals, the others
+            return (0 if round(sh, 2) == sh else 1 if round(sh, 3) == sh else 2, sh)
+        for share, sizes in sorted(boundary_shares().items(), key=lambda kv: written(kv[0])):
+            for n in sizes:
+                need = max(1, math.ceil(Fraction(share) * n))
+                for em in (False, True):
+                    for np_ in (need - 1, need):
+                        for rest in rests:
+                            out.append(share_case(share, n, np_, em, rest))
+        return out
 
     def _rand_voter(self, rng, exact, acts=None):
         act = rng.choice(acts or ["PERMIT", "PERMIT", "PERMIT", "EXECUTE", "BLOCK", "BLOCK", "BLOCK", "DEFER",
@@ -706,7 +802,9 @@ class C06(Check):
         skipped = 0
         while len(out) < n:
             k = rng.random()
-            if k < 0.27:
+            if k < 0.05:
+                c = self._share_case(rng)
+            elif k < 0.27:
                 c = self._grid_case(rng, True)
             elif k < 0.40:
                 c = self._tie_case(rng)
@@ -754,6 +852,11 @@ class C06(Check):
                             out.append(c)
                     out.append({"strategy": "threshold", "thr": None, "min_voters": 1, "emergency": True,
                                 "voters": [voter(a) for a in combo], "exact": True})
+        shares = self._share_boundaries()
+        kept = [c for c in shares if not skip_for_rounding(c)]
+        self.extra_cov["share_boundary_cases"] = len(kept)
+        self.extra_cov["share_boundary_skipped_margin"] = len(shares) - len(kept)
+        out += kept
         out += [c for c in self._resize_histories() if not self._near(c)]
         out += [c for c in self._abort_histories() if not self._near(c)]
         out += [c for c in self._real_histories() if not self._near(c)]
@@ -1183,7 +1286,15 @@ class C06(Check):
                 return Violation("C06/unanimous-not-permit", f"{strat}: {np_} permit vote(s), no block, positive support, yet {trace['decision']}")
         # reached only if (and if) the strategy's stated criterion holds
         if not near and (verdict == "permit") != permit:
-            return Violation("C06/criterion", f"{strat}: decision {trace['decision']} but the stated criterion says {verdict}")
+            detail = ""
+            if strat == "threshold" and n:
+                need, prod = count_needed(case, n)
+                if prod is not None:
+                    detail = (f" ({np_} of {n} colony members permit = {float(Fraction(np_, n)):.4%} of the colony; the configured "
+                              f"share {float(eff_thr(case, 0))!r} of {n} members is {float(prod):.6g}, i.e. {need} permit vote(s) are needed)")
+                else:
+                    detail = f" ({np_} of {n} colony members permit, {need} permit vote(s) are needed)"
+            return Violation("C06/criterion", f"{strat}: decision {trace['decision']} but the stated criterion says {verdict}{detail}")
         # monotonicity (metamorphic, on the implementation)
         if meta and permit and not near:
             tried = 0
@@ -1271,6 +1382,15 @@ class C06(Check):
             if margin == 0:
                 ks.append("tie")
             ks.append("thr=" + ("default" if not snap["thr"] else ("fraction" if 0 < snap["thr"] < 1 else "count-or-out-of-range")))
+            if snap["strategy"] == "threshold" and snap["thr"] and 0 < snap["thr"] < 1 and snap["voters"]:
+                nn = len(snap["voters"])
+                need, prod = count_needed(snap, nn)
+                npm = sum(1 for v in snap["voters"] if KIND[v["act"]] == "P" and v["act"] not in FAILED)
+                ks.append("count-share=" + ("dyadic" if _dyadic(snap["thr"]) else "non-dyadic"))
+                if npm in (need - 1, need):
+                    ks.append("count-share-permits=" + ("quota" if npm == need else "quota-1"))
+                if _dist_to_integer(prod) <= Fraction(1, 20) and prod.denominator != 1:
+                    ks.append("count-share-product-within-0.05-of-" + ("integer-above" if math.ceil(prod) - prod <= Fraction(1, 20) else "integer-below"))
             ks.append("in-range" if in_range(snap) else "malformed")
             if any(v["act"] in FAILED for v in snap["voters"]):
                 ks.append("has-failed-voter")
